@@ -36,8 +36,8 @@ Definition ifm_key_eqb (a b : ifm_key) : bool := beq_bytes (fst a) (fst b) && (s
 Record astate := mkAState {
   as_cl : amap bytes client_rec;               (* sessions: client id -> client as last written *)
   as_sub : amap sub_key (subscription * N);    (* (client, filter) -> options, granted QoS *)
-  as_ret : amap bytes pkt;                     (* topic -> retained publish *)
-  as_ifm : amap ifm_key pkt;                   (* (client, packet id) -> in-flight packet *)
+  as_ret : amap bytes (bytes * pkt);           (* topic -> publishing client, retained publish *)
+  as_ifm : amap ifm_key (pkt * N);             (* (client, packet id) -> in-flight packet, time sent *)
   as_sys : option val }.
 
 Definition astate0 : astate := mkAState [] [] [] [] None.
@@ -49,10 +49,10 @@ Definition astep (st : astate) (a : awr) : astate :=
   | ASetSub cid s g =>
       mkAState (as_cl st) (aset sub_key_eqb (cid, su_filter s) (s, g) (as_sub st)) (as_ret st) (as_ifm st) (as_sys st)
   | ADelSub cid f => mkAState (as_cl st) (adel sub_key_eqb (cid, f) (as_sub st)) (as_ret st) (as_ifm st) (as_sys st)
-  | ASetRet cid p => mkAState (as_cl st) (as_sub st) (aset beq_bytes (p_topic p) p (as_ret st)) (as_ifm st) (as_sys st)
+  | ASetRet cid p => mkAState (as_cl st) (as_sub st) (aset beq_bytes (p_topic p) (cid, p) (as_ret st)) (as_ifm st) (as_sys st)
   | ADelRet t => mkAState (as_cl st) (as_sub st) (adel beq_bytes t (as_ret st)) (as_ifm st) (as_sys st)
   | ASetIfm cid p sent =>
-      mkAState (as_cl st) (as_sub st) (as_ret st) (aset ifm_key_eqb (cid, p_pid p) p (as_ifm st)) (as_sys st)
+      mkAState (as_cl st) (as_sub st) (as_ret st) (aset ifm_key_eqb (cid, p_pid p) (p, sent) (as_ifm st)) (as_sys st)
   | ADelIfm cid pid => mkAState (as_cl st) (as_sub st) (as_ret st) (adel ifm_key_eqb (cid, pid) (as_ifm st)) (as_sys st)
   | ASetSys info => mkAState (as_cl st) (as_sub st) (as_ret st) (as_ifm st) (Some info)
   end.
@@ -144,12 +144,12 @@ Section SPEC.
     else None.
 
   Definition spec_ifm (k : ifm_key) : option msg_obs :=
-    if has_session (fst k) then option_map (obs_of_pkt maxcap) (aget ifm_key_eqb k (as_ifm st)) else None.
+    if has_session (fst k) then option_map (fun ps => obs_of_pkt maxcap (fst ps)) (aget ifm_key_eqb k (as_ifm st)) else None.
 
   (* a retained publish without payload clears the topic (MQTT 3.3.1.3) *)
   Definition spec_ret (topic : bytes) : option msg_obs :=
     match aget beq_bytes topic (as_ret st) with
-    | Some p => if is_nil (p_payload p) then None
+    | Some (_, p) => if is_nil (p_payload p) then None
                 else Some (obs_of_pkt maxcap (mkPkt (p_fh p) 0 (p_topic p) (p_payload p) (p_origin p) (p_created p)
                                                     (p_expiry p) (p_ver p) (p_pf p) (p_pf_flag p) (p_mei p) (p_props p)))
     | None => None
@@ -245,7 +245,8 @@ Definition KF_C20_sub_key_collision (aws : list awr) : bool :=
    message expiry interval (set to -1 by the deferral path C25-1, to the due time of a delayed will
    C16-3): it cannot be recomputed after a restart *)
 Definition irregular (maxcap : N) (p : pkt) : bool :=
-  negb (p_expiry p =? regular_expiry maxcap (p_created p) (eff_mei (p_fh p) (p_mei p)))%Z.
+  negb (p_expiry p =? regular_expiry maxcap (p_created p) (eff_mei (p_fh p) (p_mei p)))%Z
+  || ((0 <? eff_mei (p_fh p) (p_mei p)) && negb (p_ver p =? 5)).   (* an expiry interval on a packet not marked MQTT 5 *)
 Definition KF_C20_irregular_expiry (maxcap : N) (aws : list awr) : bool :=
   existsb (fun a => match a with
                     | ASetRet _ p => irregular maxcap p
